@@ -327,6 +327,19 @@ theorem resampleNd_calibration (shape : List ℕ) (o s : List Rat) (pairs : List
     rw [Dataset.resampleCalib_eq]
     exact Dataset.calibFold_other shape o s ax pairs (o, s) h
 
+/-- **N-D round trip on real arrays, exactly as the code runs it** (`isReal = true`: real part
+after each inverse transform, rescales included): for a real array, distinct axes, every axis
+enlarged or kept, and no Nyquist-frequency content in the lines of an enlarged axis at the
+stage it is resampled (`RealUp`), up-sampling and resampling back returns the original
+array; the up-sampled array itself is real (`resampleFold_real`). -/
+theorem resampleNd_roundtrip_real (a : Arr (Cx ℝ)) (ha : WFArr a) (hr : IsRealArr a) (axes outs : List ℕ)
+    (hnd : axes.Nodup) (hl : axes.length = outs.length) (hv : ∀ ax ∈ axes, ax < a.shape.length)
+    (h : RealUp a (axes.zip outs)) :
+    IsRealArr (resampleFold a (axes.zip outs)) ∧
+    resampleNd (resampleNd a axes outs true) axes.reverse
+      (axes.map fun ax => a.shape.getD ax 1).reverse true = a :=
+  ⟨resampleFold_real _ a hr h, resampleNd_up_down_real a ha hr axes outs hnd hl hv h⟩
+
 /-! ### the mean reducer, padding to a smaller shape -/
 
 /-- **mean reducer**: `bin(..., reducer="mean")` returns every block sum divided by the block
